@@ -244,4 +244,302 @@ theorem encStructure_layout (m : LMol) (cm : CMol) (h : encStructure m = .ok cm)
       · simp at h
 
 
+theorem indexOf_get (keys : List Nat) (n i : Nat) (h : indexOf? keys n = some i) : keys[i]? = some n := by
+  unfold indexOf? at h
+  rw [List.findIdx?_eq_some_iff_getElem] at h
+  obtain ⟨hi, he, _⟩ := h
+  rw [List.getElem?_eq_getElem hi]
+  simp only [beq_iff_eq] at he
+  rw [he]
+
+/-- the closure rows of `_cython_compiled_query`: every kept `closures` entry occupies `bonds[s : s + len]` -/
+theorem closureRows_spec (q : LQuery) (fronts : List Nat) :
+    ∀ (cl : Iso.Closures) (start : Nat) (rows : List (Nat × Nat × Nat × Nat)) (bonds : List CBond),
+      closureRows q fronts cl start = .ok (rows, bonds) →
+      (∀ (n : Nat) (ms : List Nat) (i : Nat), (n, ms) ∈ cl → indexOf? fronts n = some i → ms ≠ [] →
+        ∃ (bs : List CBond) (s : Nat), closureBonds q fronts n ms = .ok bs ∧ (i, ms.length, s, s + ms.length) ∈ rows ∧
+          start ≤ s ∧ s + ms.length ≤ start + bonds.length ∧ (bonds.drop (s - start)).take ms.length = bs) ∧
+      (∀ r ∈ rows, ∃ (n : Nat) (ms : List Nat), (n, ms) ∈ cl ∧ indexOf? fronts n = some r.1 ∧ ms ≠ []) := by
+  intro cl
+  induction cl with
+  | nil =>
+    intro start rows bonds h
+    simp [closureRows] at h
+    obtain ⟨rfl, rfl⟩ := h
+    exact ⟨by intro n ms i hm; simp at hm, by intro r hr; simp at hr⟩
+  | cons ent rest ih =>
+    intro start rows bonds h
+    obtain ⟨n0, ms0⟩ := ent
+    unfold closureRows at h
+    cases hi : indexOf? fronts n0 with
+    | none =>
+      simp only [hi] at h
+      obtain ⟨h1, h2⟩ := ih start rows bonds h
+      refine ⟨?_, ?_⟩
+      · intro n ms i hm hidx hne
+        rcases List.mem_cons.mp hm with he | hm'
+        · simp only [Prod.mk.injEq] at he; obtain ⟨rfl, rfl⟩ := he; rw [hi] at hidx; simp at hidx
+        · exact h1 n ms i hm' hidx hne
+      · intro r hr
+        obtain ⟨n, ms, hm, hx⟩ := h2 r hr
+        exact ⟨n, ms, List.mem_cons_of_mem _ hm, hx⟩
+    | some i0 =>
+      simp only [hi] at h
+      by_cases hemp : ms0.isEmpty = true
+      · simp only [hemp, if_true] at h
+        obtain ⟨h1, h2⟩ := ih start rows bonds h
+        refine ⟨?_, ?_⟩
+        · intro n ms i hm hidx hne
+          rcases List.mem_cons.mp hm with he | hm'
+          · simp only [Prod.mk.injEq] at he; obtain ⟨rfl, rfl⟩ := he
+            exact absurd (List.isEmpty_iff.mp hemp) hne
+          · exact h1 n ms i hm' hidx hne
+        · intro r hr
+          obtain ⟨n, ms, hm, hx⟩ := h2 r hr
+          exact ⟨n, ms, List.mem_cons_of_mem _ hm, hx⟩
+      · simp only [hemp, Bool.false_eq_true, if_false, bind, Except.bind] at h
+        cases hb : closureBonds q fronts n0 ms0 with
+        | error e => simp [hb] at h
+        | ok bs =>
+          simp only [hb] at h
+          cases hr : closureRows q fronts rest (start + ms0.length) with
+          | error e => simp [hr] at h
+          | ok res =>
+            obtain ⟨rows', tl⟩ := res
+            simp only [hr, pure, Except.pure, Except.ok.injEq, Prod.mk.injEq] at h
+            obtain ⟨rfl, rfl⟩ := h
+            obtain ⟨h1, h2⟩ := ih (start + ms0.length) rows' tl hr
+            have hbl : bs.length = ms0.length := mapM_except_length _ ms0 bs hb
+            refine ⟨?_, ?_⟩
+            · intro n ms i hm hidx hne
+              rcases List.mem_cons.mp hm with he | hm'
+              · simp only [Prod.mk.injEq] at he; obtain ⟨rfl, rfl⟩ := he
+                rw [hi] at hidx; obtain rfl := Option.some.inj hidx
+                refine ⟨bs, start, hb, by simp, Nat.le_refl _, by simp [hbl], ?_⟩
+                simp [hbl]
+              · obtain ⟨bs', s, g1, g2, g3, g4, g5⟩ := h1 n ms i hm' hidx hne
+                refine ⟨bs', s, g1, List.mem_cons_of_mem _ g2, by omega, by simp [List.length_append, hbl]; omega, ?_⟩
+                have : s - start = bs.length + (s - (start + ms0.length)) := by omega
+                rw [this, ← List.drop_drop, List.drop_left]
+                exact g5
+            · intro r hr'
+              rcases List.mem_cons.mp hr' with he | hr''
+              · subst he
+                exact ⟨n0, ms0, by simp, hi, fun e => hemp (by simp [e])⟩
+              · obtain ⟨n, ms, hm, hx⟩ := h2 r hr''
+                exact ⟨n, ms, List.mem_cons_of_mem _ hm, hx⟩
+
+
+theorem closureRows_nodup (q : LQuery) (fronts : List Nat) :
+    ∀ (cl : Iso.Closures) (start : Nat) (rows : List (Nat × Nat × Nat × Nat)) (bonds : List CBond),
+      closureRows q fronts cl start = .ok (rows, bonds) → (cl.map (·.1)).Nodup → (rows.map (·.1)).Nodup := by
+  intro cl
+  induction cl with
+  | nil =>
+    intro start rows bonds h _
+    simp [closureRows] at h
+    obtain ⟨rfl, rfl⟩ := h
+    simp
+  | cons ent rest ih =>
+    intro start rows bonds h hnd
+    obtain ⟨n0, ms0⟩ := ent
+    have hnd' : n0 ∉ rest.map (·.1) ∧ (rest.map (·.1)).Nodup := by
+      rw [List.map_cons] at hnd; exact List.nodup_cons.mp hnd
+    unfold closureRows at h
+    cases hi : indexOf? fronts n0 with
+    | none => simp only [hi] at h; exact ih start rows bonds h hnd'.2
+    | some i0 =>
+      simp only [hi] at h
+      by_cases hemp : ms0.isEmpty = true
+      · simp only [hemp, if_true] at h; exact ih start rows bonds h hnd'.2
+      · simp only [hemp, Bool.false_eq_true, if_false, bind, Except.bind] at h
+        cases hb : closureBonds q fronts n0 ms0 with
+        | error e => simp [hb] at h
+        | ok bs =>
+          simp only [hb] at h
+          cases hr : closureRows q fronts rest (start + ms0.length) with
+          | error e => simp [hr] at h
+          | ok res =>
+            obtain ⟨rows', tl⟩ := res
+            simp only [hr, pure, Except.pure, Except.ok.injEq, Prod.mk.injEq] at h
+            obtain ⟨rfl, rfl⟩ := h
+            have ihn := ih (start + ms0.length) rows' tl hr hnd'.2
+            obtain ⟨_, h2⟩ := closureRows_spec q fronts rest (start + ms0.length) rows' tl hr
+            simp only [List.map_cons, List.nodup_cons]
+            refine ⟨?_, ihn⟩
+            intro hmem
+            obtain ⟨r, hr', hr1⟩ := List.mem_map.mp hmem
+            obtain ⟨n, ms, hm, hx, _⟩ := h2 r hr'
+            rw [hr1] at hx
+            have e1 := indexOf_get fronts n i0 hx
+            have e2 := indexOf_get fronts n0 i0 hi
+            rw [e1] at e2
+            obtain rfl := Option.some.inj e2
+            exact hnd'.1 (List.mem_map.mpr ⟨(n, ms), hm, rfl⟩)
+
+theorem rowOf_mem (rows : List (Nat × Nat × Nat × Nat)) (hnd : (rows.map (·.1)).Nodup) (i c f t : Nat)
+    (h : (i, c, f, t) ∈ rows) : rowOf rows i = (c, f, t) := by
+  unfold rowOf
+  have : rows.reverse.find? (·.1 == i) = some (i, c, f, t) := by
+    have hnd' : (rows.reverse.map (·.1)).Nodup := by rw [List.map_reverse]; exact List.nodup_reverse.mpr hnd
+    have hm : (i, c, f, t) ∈ rows.reverse := List.mem_reverse.mpr h
+    generalize rows.reverse = l at hnd' hm
+    induction l with
+    | nil => simp at hm
+    | cons r l ih =>
+      simp only [List.map_cons, List.nodup_cons] at hnd'
+      rcases List.mem_cons.mp hm with he | hm'
+      · subst he; simp
+      · have : r.1 ≠ i := by
+          intro e; apply hnd'.1; rw [e]; exact List.mem_map.mpr ⟨_, hm', rfl⟩
+        rw [List.find?_cons]
+        have : (r.1 == i) = false := by simp [this]
+        simp only [this]
+        exact ih hnd'.2 hm'
+  rw [this]
+
+theorem rowOf_none (rows : List (Nat × Nat × Nat × Nat)) (i : Nat) (h : ∀ r ∈ rows, r.1 ≠ i) : rowOf rows i = (0, 0, 0) := by
+  unfold rowOf
+  have : rows.reverse.find? (·.1 == i) = none := by
+    rw [List.find?_eq_none]; intro r hr; have := h r (List.mem_reverse.mp hr); simp [this]
+  rw [this]
+
+
+theorem lookup_mem_nodup (cl : Iso.Closures) (hnd : (cl.map (·.1)).Nodup) (n : Nat) (ms : List Nat) (h : (n, ms) ∈ cl) :
+    cl.lookup n = some ms := by
+  induction cl with
+  | nil => simp at h
+  | cons e rest ih =>
+    have hnd' : e.1 ∉ rest.map (·.1) ∧ (rest.map (·.1)).Nodup := by
+      rw [List.map_cons] at hnd; exact List.nodup_cons.mp hnd
+    rcases List.mem_cons.mp h with he | h'
+    · subst he; simp [List.lookup_cons]
+    · have : e.1 ≠ n := fun e' => hnd'.1 (e' ▸ List.mem_map.mpr ⟨(n, ms), h', rfl⟩)
+      obtain ⟨k, v⟩ := e
+      simp only at this
+      have hb : (n == k) = false := by simp [Ne.symm this]
+      simp only [List.lookup_cons, hb]
+      exact ih hnd'.2 h'
+
+theorem lookup_some_mem (cl : Iso.Closures) (n : Nat) (ms : List Nat) (h : cl.lookup n = some ms) : (n, ms) ∈ cl := by
+  induction cl with
+  | nil => simp at h
+  | cons e rest ih =>
+    obtain ⟨k, v⟩ := e
+    simp only [List.lookup_cons] at h
+    by_cases hk : n = k
+    · subst hk; simp at h; subst h; simp
+    · have hb : (n == k) = false := by simp [hk]
+      simp only [hb] at h
+      exact List.mem_cons_of_mem _ (ih h)
+
+/-- **layout of a query component buffer**: step `j` of the linearised component sits at index `j` with its four masks, its number,
+    the index of its parent, and `q_from/q_to` delimit exactly its encoded closure bonds (`closure` = their number) -/
+theorem encComponent_layout (q : LQuery) (cl : Iso.Closures) (comp : List Iso.Step) (cq : CQuery)
+    (h : encComponent q cl comp = .ok cq) (hF : (comp.map (·.front)).Nodup) (hcl : (cl.map (·.1)).Nodup) :
+    cq.atoms.length = comp.length ∧
+    ∀ (j : Nat) (s : Iso.Step), comp[j]? = some s →
+      ∃ (qa : CQAtom) (w : Words) (qb : List CBond),
+        cq.atoms[j]? = some qa ∧ stepMask q s = .ok w ∧ (⟨qa.m1, qa.m2, qa.m3, qa.m4⟩ : Words) = w ∧ qa.mapping = s.front ∧
+        (∀ b, s.back = some b → indexOf? (comp.map (·.front)) b = some qa.back) ∧ (s.back = none → qa.back = 0) ∧
+        slice? cq.bonds qa.from_ qa.to_ = some qb ∧ qb.length = qa.closure ∧
+        (∀ ms, cl.lookup s.front = some ms → ms ≠ [] → closureBonds q (comp.map (·.front)) s.front ms = .ok qb) ∧
+        ((cl.lookup s.front = none ∨ cl.lookup s.front = some []) → qb = []) := by
+  unfold encComponent at h
+  simp only [bind, Except.bind] at h
+  cases hm : comp.mapM (stepMask q) with
+  | error e => simp [hm] at h
+  | ok masks =>
+    simp only [hm] at h
+    cases hr : closureRows q (comp.map (·.front)) cl 0 with
+    | error e => simp [hr] at h
+    | ok res =>
+      obtain ⟨rows, bonds⟩ := res
+      simp only [hr] at h
+      cases hb : comp.mapM (backIndex (comp.map (·.front))) with
+      | error e => simp [hb] at h
+      | ok backs =>
+        simp only [hb] at h
+        split at h
+        · simp only [pure, Except.pure, Except.ok.injEq] at h
+          subst h
+          have hml := mapM_except_length _ _ _ hm
+          have hbl := mapM_except_length _ _ _ hb
+          obtain ⟨hspec1, hspec2⟩ := closureRows_spec q (comp.map (·.front)) cl 0 rows bonds hr
+          have hrn := closureRows_nodup q (comp.map (·.front)) cl 0 rows bonds hr hcl
+          refine ⟨by simp [hml, hbl], ?_⟩
+          intro j s hj
+          obtain ⟨w, hw, hwj⟩ := mapM_except_get _ _ _ hm j s hj
+          obtain ⟨bk, hbk', hbj⟩ := mapM_except_get _ _ _ hb j s hj
+          have hfj : (comp.map (·.front))[j]? = some s.front := by simp [hj]
+          have hz : ((masks.zip backs).zip (comp.map (·.front)))[j]? = some ((w, bk), s.front) := by
+            rw [List.getElem?_zip_eq_some]; exact ⟨by rw [List.getElem?_zip_eq_some]; exact ⟨hwj, hbj⟩, hfj⟩
+          have hatom : ∀ (r : Nat × Nat × Nat), rowOf rows j = r →
+              (List.map (fun (x : ((Words × Nat) × Nat) × Nat) =>
+                  (⟨x.1.1.1.v1, x.1.1.1.v2, x.1.1.1.v3, x.1.1.1.v4, x.1.1.2, (rowOf rows x.2).1, (rowOf rows x.2).2.1,
+                    (rowOf rows x.2).2.2, x.1.2⟩ : CQAtom))
+                ((masks.zip backs).zip (comp.map (·.front))).zipIdx)[j]? =
+              some ⟨w.v1, w.v2, w.v3, w.v4, bk, r.1, r.2.1, r.2.2, s.front⟩ := by
+            intro r hr'
+            rw [List.getElem?_map, List.getElem?_zipIdx, hz]
+            simp only [Option.map_some, Nat.zero_add, hr']
+          -- the parent index
+          have hback1 : ∀ b, s.back = some b → indexOf? (comp.map (·.front)) b = some bk := by
+            intro b hsb
+            unfold backIndex at hbk'
+            simp only [hsb] at hbk'
+            cases hix : indexOf? (comp.map (·.front)) b with
+            | none => rw [hix] at hbk'; simp at hbk'
+            | some jj => rw [hix] at hbk'; simp only [Except.ok.injEq] at hbk'; rw [hbk']
+          have hback2 : s.back = none → bk = 0 := by
+            intro hsb
+            unfold backIndex at hbk'
+            simp only [hsb, Except.ok.injEq] at hbk'
+            exact hbk'.symm
+          have hidx : indexOf? (comp.map (·.front)) s.front = some j := indexOf_nodup _ hF j s.front hfj
+          cases hlk : cl.lookup s.front with
+          | none =>
+            have hnone : ∀ r ∈ rows, r.1 ≠ j := by
+              intro r hr' he
+              obtain ⟨n, ms, hmem, hx, _⟩ := hspec2 r hr'
+              rw [he] at hx
+              have e1 := indexOf_get _ n j hx
+              rw [hfj] at e1; obtain rfl := Option.some.inj e1
+              rw [lookup_mem_nodup cl hcl _ ms hmem] at hlk; simp at hlk
+            have hro := rowOf_none rows j hnone
+            refine ⟨_, w, [], hatom _ hro, hw, rfl, rfl, hback1, hback2, ?_, rfl, ?_, fun _ => rfl⟩
+            · simp [slice?]
+            · intro ms hms; simp at hms
+          | some ms =>
+            by_cases hemp : ms = []
+            · subst hemp
+              have hnone : ∀ r ∈ rows, r.1 ≠ j := by
+                intro r hr' he
+                obtain ⟨n, ms', hmem, hx, hne⟩ := hspec2 r hr'
+                rw [he] at hx
+                have e1 := indexOf_get _ n j hx
+                rw [hfj] at e1; obtain rfl := Option.some.inj e1
+                rw [lookup_mem_nodup cl hcl _ ms' hmem] at hlk
+                exact hne (Option.some.inj hlk)
+              have hro := rowOf_none rows j hnone
+              refine ⟨_, w, [], hatom _ hro, hw, rfl, rfl, hback1, hback2, ?_, rfl, ?_, fun _ => rfl⟩
+              · simp [slice?]
+              · intro ms' hms hne; exact absurd (Option.some.inj hms).symm hne
+            · obtain ⟨bs, s0, g1, g2, _, g4, g5⟩ := hspec1 s.front ms j (lookup_some_mem cl _ _ hlk) hidx hemp
+              have hro := rowOf_mem rows hrn j ms.length s0 (s0 + ms.length) g2
+              have hbsl : bs.length = ms.length := mapM_except_length _ ms bs g1
+              refine ⟨_, w, bs, hatom _ hro, hw, rfl, rfl, hback1, hback2, ?_, hbsl, ?_, ?_⟩
+              · unfold slice?
+                have h1 : s0 ≤ s0 + ms.length := by omega
+                have h2 : s0 + ms.length ≤ bonds.length := by omega
+                simp only [h1, h2, if_true]
+                have : s0 + ms.length - s0 = ms.length := by omega
+                rw [this]; simpa using g5
+              · intro ms' hms _; obtain rfl := Option.some.inj hms; exact g1
+              · intro hcase
+                rcases hcase with hc | hc
+                · simp at hc
+                · exact absurd (Option.some.inj hc) hemp
+        · simp at h
+
 end ChythonModel.Proofs.C09
